@@ -100,6 +100,25 @@ def s_map_is_empty(ex, st, func, args, ty):
     m = obj(st, args[0]); return [(st, BoolV(z3.BoolVal(len(st.heap[m.oid].get('model', ())) == 0)))]
 
 
+def s_map_take(ex, st, func, args, ty):
+    """std::mem::take(&mut map) / mem::replace(&mut map, BTreeMap::new()): the old map out, an empty one in"""
+    r = args[0]; old = deref(st, r)
+    if not isinstance(old, ObjV) or 'model' not in st.heap[old.oid]:
+        if isinstance(old, ObjV) and 'BTreeMap' in str(st.meta[old.oid][1]): st.heap[old.oid].setdefault('model', ())
+        else: return None
+    n = st.new_obj(st.fresh_name('emptymap'), st.meta[old.oid][1]); st.heap[n]['model'] = ()
+    st.heap[r.oid][r.key] = ObjV(n)
+    return [(st, old)]
+def s_into_values(ex, st, func, args, ty):
+    m = obj(st, args[0]); ents = st.heap[m.oid].get('model', ())
+    it = st.new_obj(st.fresh_name('iter'), 'Iter'); st.heap[it]['model'] = tuple(ObjV(e[2]) for e in ents)
+    return [(st, ObjV(it))]
+def s_values(ex, st, func, args, ty):
+    m = obj(st, args[0]); ents = st.heap[m.oid].get('model', ())
+    it = st.new_obj(st.fresh_name('iter'), 'Iter'); st.heap[it]['model'] = tuple(slot(st, ObjV(e[2])) for e in ents)
+    return [(st, ObjV(it))]
+
+
 def s_next(ex, st, func, args, ty):
     meth = func.split('::')[-1]
     v = ex.fresh_value(st, ty, st.fresh_name('next.' + meth))
@@ -121,6 +140,8 @@ SUMM = [
     (r'BTreeMap::<.*>::last_entry$', s_last_entry), (r'BTreeMap::<.*>::first_entry$', s_first_entry),
     (r'BTreeMap::<.*>::pop_last$', s_pop_last), (r'BTreeMap::<.*>::pop_first$', s_pop_first),
     (r'OccupiedEntry::<.*>::get_mut$|OccupiedEntry::<.*>::into_mut$', s_occ_get_mut), (r'OccupiedEntry::<.*>::remove$', s_occ_remove),
+    (r'std::mem::take::<BTreeMap<', s_map_take), (r'BTreeMap::<.*>::into_values$', s_into_values), (r'BTreeMap::<.*>::values$', s_values),
+    (r'^Box::<.*(IntoValues|Rev|Iter|ValuesMut|Values|IntoIter).*>::new$', s_identity),
     (r'BTreeMap::<.*>::values_mut$', s_values_mut), (r'as Iterator>::rev$|as DoubleEndedIterator>::rev$', s_iter_rev),
     (r'as IntoIterator>::into_iter$', s_identity),
     (r'as Iterator>::next$', s_iter_next), (r'BTreeMap::<.*>::clear$', s_map_clear), (r'BTreeMap::<.*>::is_empty$', s_map_is_empty),
